@@ -1077,6 +1077,59 @@ def check_guard(ctx, crate, E, g):
             if nm == "from_elem" and len(t["args"]) == 2 and t["dest"]["l"] in ls and not pushes and \
                     is_count(t["args"][1], g["plus"]):
                 return True, "%s is created with %s() + %d elements" % (g["local"], g["count"], g["plus"])
+        # collected from `plus` single elements chained with a length-preserving pass over a list of
+        # <count>() elements: `once(0).chain(lists.iter().scan(0, ..)).collect()`
+        def never_none(cl_op):
+            """the closure handed to scan / map_while always answers Some(..)"""
+            cl = E.closure_of_operand(fa, cl_op)
+            if cl is None:
+                return False
+            cfa = E.fa(cl[0])
+            vs = [s0["rv"].get("variant") for b0, i0, s0 in cfa.stmts()
+                  if "lhs" in s0 and s0["lhs"]["l"] == 0 and not s0["lhs"]["p"] and s0["rv"]["k"] == "agg"]
+            others = [1 for b0, i0, s0 in cfa.stmts()
+                      if "lhs" in s0 and s0["lhs"]["l"] == 0 and not s0["lhs"]["p"] and s0["rv"]["k"] != "agg"]
+            return bool(vs) and all(v == "Some" for v in vs) and not others and \
+                not any(t0["dest"]["l"] == 0 and not t0["dest"]["p"] for b0, t0 in cfa.calls())
+
+        def elems(op, depth=0):
+            """(number of single elements, passes once over a list of <count>() elements) or None"""
+            if depth > 10:
+                return None
+            pl = op_place(op)
+            if pl is None or [x for x in pl["p"] if x != "*"]:
+                return None
+            ds = [d for d in fa.defs().get(pl["l"], []) if d[2] != "partial"]
+            if len(ds) != 1:
+                return None
+            d = ds[0]
+            if d[2] != "call":
+                if d[3]["k"] in ("use", "cast"):
+                    return elems(d[3]["op"], depth + 1)
+                if d[3]["k"] == "ref":
+                    return elems({"c": d[3]["place"]}, depth + 1)
+                return None
+            t = d[3]
+            nm = (callee_of(t) or {}).get("name")
+            if nm in ("once", "once_with"):
+                return (1, 0)
+            if nm == "from_elem" and len(t["args"]) == 2:
+                return (0, 1) if is_count(t["args"][1], 0) else None
+            if nm == "chain" and len(t["args"]) == 2:
+                a, b_ = elems(t["args"][0], depth + 1), elems(t["args"][1], depth + 1)
+                return (a[0] + b_[0], a[1] + b_[1]) if a is not None and b_ is not None else None
+            if nm in ("into_iter", "iter", "iter_mut", "deref", "deref_mut", "as_slice", "enumerate", "map", "copied",
+                      "cloned", "by_ref", "rev", "inspect") and t["args"]:
+                return elems(t["args"][0], depth + 1)
+            if nm == "scan" and len(t["args"]) == 3 and never_none(t["args"][2]):
+                return elems(t["args"][0], depth + 1)
+            return None
+        for b, t in fa.calls():
+            if (callee_of(t) or {}).get("name") == "collect" and t["args"] and t["dest"]["l"] in ls and not pushes:
+                got = elems(t["args"][0])
+                if got == (g["plus"], 1):
+                    return True, "%s is collected from %d single element(s) chained with one pass over a list of %s() elements" % (
+                        g["local"], g["plus"], g["count"])
         # one push per element of a collection of <count>() elements
         for nb, nt in fa.calls():
             if not any(strip_generics(x).endswith("::next") for x in callee_paths(nt)):
